@@ -127,3 +127,40 @@ package benchseries
 //@     invariant unchanged() && (s == nil || fresh(s))
 //@     invariant forall i int :: 0 <= i < len(s) ==> has(m, s[i])
 //@     invariant forall k string :: visited(k) ==> exists i int :: 0 <= i < len(s) && s[i] == k
+
+// A comparison function (the bootstrap) may be called on a point that has both
+// samples; it leaves the point's samples, date and summary link alone.
+//@ functype compareFn(c *Comparison) (center, low, high float64)
+//@   opt allocates
+//@   requires c != nil && c.Numerator != nil && c.Denominator != nil
+//@   modifies c
+//@   ensures c.Numerator == old(c.Numerator) && c.Denominator == old(c.Denominator) && c.Date == old(c.Date) && c.Summary == old(c.Summary)
+
+// withBootstrap only builds the closure: no effect on anything that exists.
+//@ func withBootstrap(confidence float64, N int) (f compareFn)
+//@   trusted
+//@   opt functional
+
+// Every recorded point is a non-nil comparison, and one with a denominator has a numerator.
+//@ pure func pointsOK(cs *ComparisonSeries) bool = forall k SeriesKey :: has(cs.cells, k) && cs.cells[k] != nil ==> (cs.cells[k].Denominator != nil ==> cs.cells[k].Numerator != nil)
+
+// AddSummaries: one row per series point, one entry per benchmark, never nil.
+//@ func (cs *ComparisonSeries) AddSummaries(confidence float64, N int)
+//@   props C18
+//@   opt allocates
+//@   requires cs != nil && pointsOK(cs)
+//@   modifies cs, heap(Comparison), heap(ComparisonSummary), heap(float64)
+//@   ensures len(cs.Summaries) == len(cs.Series) && cs.Series === old(cs.Series) && cs.Benchmarks === old(cs.Benchmarks)
+//@   ensures forall i int :: 0 <= i < len(cs.Summaries) ==> len(cs.Summaries[i]) == len(cs.Benchmarks)
+//@   ensures forall i int, j int :: 0 <= i < len(cs.Summaries) && 0 <= j < len(cs.Benchmarks) ==> cs.Summaries[i][j] != nil
+//@   loop 1:
+//@     invariant 0 <= idx() <= len(cs.Series) && len(tab) == idx() && (tab == nil || fresh(tab)) && pointsOK(cs) && unchanged(cs, heap(Comparison), heap(ComparisonSummary), heap(float64)) && deref(cs) == old(deref(cs))
+//@     invariant forall i int :: 0 <= i < len(tab) ==> len(tab[i]) == len(cs.Benchmarks) && fresh(tab[i])
+//@     invariant forall i int, j int :: 0 <= i < len(tab) && 0 <= j < len(cs.Benchmarks) ==> tab[i][j] != nil
+//@     decreases len(cs.Series) - idx()
+//@   loop 2:
+//@     invariant 0 <= idx() <= len(cs.Benchmarks) && len(row) == idx() && fresh(row) && len(tab) < len(cs.Series) && (tab == nil || fresh(tab)) && pointsOK(cs) && unchanged(cs, heap(Comparison), heap(ComparisonSummary), heap(float64)) && deref(cs) == old(deref(cs))
+//@     invariant forall j int :: 0 <= j < len(row) ==> row[j] != nil
+//@     invariant forall i int :: 0 <= i < len(tab) ==> len(tab[i]) == len(cs.Benchmarks) && fresh(tab[i])
+//@     invariant forall i int, j int :: 0 <= i < len(tab) && 0 <= j < len(cs.Benchmarks) ==> tab[i][j] != nil
+//@     decreases len(cs.Benchmarks) - idx()
